@@ -36,6 +36,7 @@ type g struct {
 }
 
 func (x *g) no(f string) bool { return x.o.No[f] }
+
 // pct is true in about n percent of the draws. rapid's integer ranges favour small values, so the
 // decision is a pick from 20 slots in which the true slots are spread evenly (slot 0 is false: shrinks to "off").
 func (x *g) pct(n int, label string) bool {
@@ -62,7 +63,7 @@ func (x *g) feat(f string, n int, label string) bool {
 	return x.pct(n, label)
 }
 
-var mediaNames = []string{"image1.png", "Image1.PNG", "picture.png", "image0", "image007.jpeg", "image2.jpeg", "image10.gif", "photo 1.jpg", "image1.jpg", "image3.png"}
+var mediaNames = []string{"image1.png", "Image1.PNG", "picture.png", "image0", "image007.jpeg", "image2.jpeg", "image10.gif", "photo 1.jpg", "image1.jpg", "image3.png", "image0.png", "image1.jpeg", "image0.gif"}
 
 type pendingRel struct {
 	Rel
